@@ -576,6 +576,7 @@ class World(object):
         self.cipher_frames = []    # (phone, bytes) what really left the client in the full wiring
         self.idle_timeouts = 0
         self.server_static = None
+        self.hold_pump = False     # deferred events stay queued (the stack's loop has not turned yet)
         self.trailing = {}         # phone -> bytes appended to the next frame delivered to it (full wiring)
         self.chunker = None        # optional: fn(bytes) -> [chunks] for server->client bytes in the full wiring
         self.double_close_report = False
@@ -736,7 +737,7 @@ class World(object):
                                            or self.raw_out.get(phone)):
                     continue    # one byte stream per connection: the handshake reply goes first
                 acts.append(("deliver", phone))
-        if self.detached_pending():
+        if self.detached_pending() and not self.hold_pump:
             acts.append(("pump", ""))
         if self.script_pos < len(self.script):
             a = self.script[self.script_pos]
